@@ -1,5 +1,6 @@
 SPECIFICATION Spec
 CONSTANTS
   Alphabet <- A30
+  Seeds <- NoSeed
   MaxLen = 40
 INVARIANT Emit
